@@ -150,7 +150,7 @@ func (vc *FnVC) globalAddr(g *ssa.Global) *Val {
 	if s == "" {
 		s = "Int"
 	}
-	vc.key(name, s, "global")
+	vc.key(name, s, "global").GoType = elem.String()
 	a := &Addr{Kind: "global", Key: name, Elem: elem}
 	if c := vc.G.constGlobals[g]; c != nil {
 		a.Const = vc.constVal(c).S
